@@ -2,7 +2,9 @@ package main
 
 import (
 	"bytes"
+	"errors"
 	"fmt"
+	"github.com/vulcand/oxy/v2/utils"
 	"io"
 	"math/rand/v2"
 	"net/http"
@@ -180,7 +182,7 @@ type c20MW struct {
 	Kind      string `json:"kind"`
 	Intervene bool   `json:"intervene,omitempty"`
 	Sticky    bool   `json:"sticky,omitempty"`
-	Retry     string `json:"retry,omitempty"` // buffer: a retry expression that is false for the response the handler gives
+	Retry     string `json:"retry,omitempty"`            // buffer: a retry expression that is false for the response the handler gives
 	MaxReq    int64  `json:"max_request_body,omitempty"` // buffer: request-size limit equal to the size of the body sent (not exceeded)
 	// rebalancer: two servers that the wrapped balancer already knew before they were registered with the rebalancer put in
 	// front of it, and meters that are ready at once (so that the rebalancer really evaluates its servers on every request)
@@ -211,19 +213,27 @@ func c20Build(specs []c20MW, inner http.Handler) (http.Handler, error) {
 			h, err = trace.New(h, sink, trace.RequestHeaders("X-Req-Id"), trace.ResponseHeaders("X-App"))
 		case "connlimit":
 			max := int64(2) // requests are sequential: the limit is never reached
-			if sp.Intervene {
+			if sp.Intervene && sp.Fallback != "nosource" {
 				max = 1
 			}
-			h, err = connlimit.New(h, hdrExtractor, max)
+			var ex utils.SourceExtractor = hdrExtractor
+			if sp.Intervene && sp.Fallback == "nosource" {
+				ex = c20StrictExtractor
+			}
+			h, err = connlimit.New(h, ex, max)
 		case "ratelimit":
 			rs := ratelimit.NewRateSet()
-			if sp.Intervene {
+			if sp.Intervene && sp.Fallback != "nosource" {
 				_ = rs.Add(time.Hour, 1, 1)
 			} else {
 				// generous rates over periods from a second down to a millisecond (any period above 0 is legal)
 				_ = rs.Add([]time.Duration{time.Second, 50 * time.Millisecond, 10 * time.Millisecond, time.Millisecond}[i%4], 100000, 100000)
 			}
-			h, err = ratelimit.New(h, hdrExtractor, rs)
+			var ex utils.SourceExtractor = hdrExtractor
+			if sp.Intervene && sp.Fallback == "nosource" {
+				ex = c20StrictExtractor
+			}
+			h, err = ratelimit.New(h, ex, rs)
 		case "breaker":
 			cond := "NetworkErrorRatio() > 2.0"
 			if sp.Intervene {
@@ -306,6 +316,15 @@ func c20Build(specs []c20MW, inner http.Handler) (http.Handler, error) {
 	return h, nil
 }
 
+// c20StrictExtractor fails for requests that do not name their tenant (an API-key style extractor): the limiter then
+// answers through its error handler (500) and must not pass the request on.
+var c20StrictExtractor = utils.ExtractorFunc(func(req *http.Request) (string, int64, error) {
+	if req.Header.Get("X-Src") == "" {
+		return "", 0, errors.New("no X-Src header: the source of this request cannot be determined")
+	}
+	return req.Header.Get("X-Src"), 1, nil
+})
+
 var c20Kinds = []string{"stream", "trace", "connlimit", "ratelimit", "breaker", "roundrobin", "rebalancer", "buffer"}
 var c20Docs = map[string]int{"ratelimit": 429, "connlimit": 429, "breaker": 503, "roundrobin": 500, "rebalancer": 500, "buffer": 413}
 
@@ -337,6 +356,10 @@ func c20Stacks(c *Ctx) {
 				specs[iv].Intervene = true
 				if specs[iv].Kind == "breaker" {
 					specs[iv].Fallback = pick(r, []string{"", "", "redirect", "status"})
+				}
+				if (specs[iv].Kind == "ratelimit" || specs[iv].Kind == "connlimit") && r.IntN(3) == 0 {
+					// the limiter intervenes because it cannot tell whose request this is (its extractor fails)
+					specs[iv].Fallback = "nosource"
 				}
 				mode = "intervening:" + specs[iv].Kind
 			}
@@ -447,7 +470,9 @@ func c20Stacks(c *Ctx) {
 			}
 			req, _ := http.NewRequest(method, srv.URL+"/s", rd)
 			req.Header.Set("X-Req-Id", id)
-			req.Header.Set("X-Src", "client-1")
+			if !(id == "test" && iv >= 0 && specs[iv].Fallback == "nosource") {
+				req.Header.Set("X-Src", "client-1")
+			}
 			if scriptName != "" {
 				req.Header.Set("X-Script", scriptName)
 			}
@@ -478,7 +503,11 @@ func c20Stacks(c *Ctx) {
 		if iv >= 0 {
 			// pre-drive through the whole stack
 			var released sync.WaitGroup
-			switch specs[iv].Kind {
+			kindForPredrive := specs[iv].Kind
+			if specs[iv].Fallback == "nosource" {
+				kindForPredrive = "ratelimit" // one ordinary request first (it must pass), nothing is held or drained
+			}
+			switch kindForPredrive {
 			case "ratelimit":
 				if resp, _, err := do("pre", "ok", nil, nil); err != nil || resp.StatusCode != 200 {
 					c.Violation("predrive", sfmt("pre-driving request failed: %v", err), desc)
@@ -507,7 +536,7 @@ func c20Stacks(c *Ctx) {
 				body = detBody(100, uint64(i))
 			}
 			resp, rb, err := do("test", "", body, nil)
-			if specs[iv].Kind == "connlimit" {
+			if specs[iv].Kind == "connlimit" && specs[iv].Fallback != "nosource" {
 				close(inner.hold)
 				released.Wait()
 			}
@@ -524,6 +553,9 @@ func c20Stacks(c *Ctx) {
 				want = http.StatusFound
 			case "status":
 				want = http.StatusTooManyRequests
+			case "nosource":
+				want = http.StatusInternalServerError
+				c.Count("intervening_source_extraction_failures", 1)
 			}
 			if n != 0 {
 				c.Violation("intervene/handler-invoked", sfmt("%s: the wrapped handler was invoked %d times although %s intervened (status %d)", mode, n, specs[iv].Kind, resp.StatusCode), desc)
@@ -705,6 +737,10 @@ func c20Stacks(c *Ctx) {
 			}
 			if stickyLayers > 0 {
 				c.Count("sticky_cookie_presence_checked", 1)
+				if affinity > stickyLayers {
+					c.Violation("transparent/sticky-cookie-duplicated", sfmt("the stack contains %d balancer(s) with sticky sessions, each of which adds one affinity cookie for a cookie-less request; the response carries %d (Set-Cookie seen: %q)", stickyLayers, affinity, gh.Values("Set-Cookie")), desc)
+					return
+				}
 				if affinity == 0 {
 					c.Violation("transparent/sticky-cookie-lost", sfmt("the stack contains %d balancer(s) with sticky sessions and the request carried no cookie, but the response has no affinity cookie (Set-Cookie seen: %q)", stickyLayers, gh.Values("Set-Cookie")), desc)
 					return
